@@ -479,4 +479,6 @@ class DataFrame:
     def __add__(self, the_other):
         if self._schema != the_other._schema:
             raise ValueError("Schemas must be identical to add DataFrames")
+        self.materialize()
+        the_other.materialize()
         return DataFrame(rows=self._rows + the_other._rows, schema=self._schema)
